@@ -294,7 +294,11 @@ def rate_part(ctx, fails):
 def gen_frame(rng):
     nlev = rng.choice([2, 2, 3, 4])
     kind = rng.choice(['int', 'int', 'float', 'str'])
-    codes = rng.sample(range(0, 9), nlev)
+    # level codes are arbitrary numbers: change scores and centred doses are negative, and 0 (the default reference) need not be
+    # the smallest level
+    codes = rng.sample(range(-3, 7), nlev)
+    if rng.random() < 0.4 and 0 not in codes:
+        codes[-1] = 0
     rows = []
     for code in codes:
         for yv in (1, 0):
@@ -306,7 +310,7 @@ def gen_frame(rng):
         m = rng.choice({'e': ['e'], 'y': ['y'], 't': ['t'], 'ey': ['e', 'y', 'ey'], 'all': ['e', 'y', 't', 'ey', 'et', 'yt', 'eyt']}[miss])
         rows.append([None if 'e' in m else code, None if 'y' in m else yv, None if 't' in m else t])
     rng.shuffle(rows)
-    ref = rng.choice(codes)
+    ref = rng.choice(codes) if 0 not in codes or rng.random() < 0.5 else 0
     return {'rows': rows, 'codes': codes, 'kind': kind, 'ref': ref, 'miss': miss,
             'index': rng.choice(['range', 'shift', 'str', 'dup']), 'alpha': rng.choice(ALPHAS)}
 
